@@ -17,6 +17,8 @@ PROP = Property(
     trusted_base=["Coq 8.16.1 kernel + coqc", "extraction (ExtrOcamlBasic) + OCaml 4.13.1",
                   "harness/sim.c (channel simulator, counting/failing allocator), harness/allocfail_drv.c (call-site tracker), ocaml/allocfail_drv.ml, gen/allocgen.py",
                   "clang 14 ASan/UBSan; LeakSanitizer replaced by the allocator ledger (every block, not only unreachable ones)"],
-    assumptions=["theorems cover the modelled operations only (see manifest); every other allocation site is covered by enumeration only"],
+    assumptions=["theorems cover the modelled operations only (see manifest); every other allocation site is covered by enumeration only",
+                 "submission models work at the granularity of allocation groups; ares_dns_write / ares_dns_parse and the groups G_key, G_0x20, G_write are assumed all-or-nothing",
+                 "the work-stack model (all requests) abstracts the requeue order of a closed connection's requests; tied by enumeration only"],
     rule="one case per (scenario, index n of the failing allocation), every n of every scenario; non-trivial = the failure was reached; distinct by case text",
 )
